@@ -1,5 +1,5 @@
 From Coq Require Import Extraction ExtrOcamlBasic.
 From FluteV Require Import Model.BlockEnc Model.ObjRecv Model.Recv Spec.RecvSpec Spec.C17Spec Spec.SessionSpec.
 Extraction Language OCaml.
-Extraction "../ocaml/gen/c09_model.ml" recv_step recv0 ctx0 calls_of P_C09_writer P_C03_writer P_C17_heap P_C17_heap_cfg P_C17_bounds P_C17_cleanup_releases recv_ledger recv_items P_C01_object P_C02_object blocks_recoverable filedesc_accepts
+Extraction "../ocaml/gen/c09_model.ml" recv_step recv0 ctx0 calls_of P_C09_writer P_C03_writer P_C17_heap P_C17_heap_cfg P_C17_bounds P_C17_cleanup_releases recv_ledger recv_items P_C01_object P_C01_refused_above_maximum P_C02_object blocks_recoverable filedesc_accepts
   block_partitioning Z.of_N Z.to_N N.of_nat N.to_nat Z.add Z.sub Z.ltb N.ltb N.eqb N.mul N.div N.modulo.
